@@ -133,6 +133,8 @@ pub struct Report {
     pub max_samples: usize,
     pub counters: BTreeMap<String, u64>,
     pub sets: BTreeMap<String, BTreeSet<String>>,
+    /// appended to every violation signature while set (see `violation`)
+    pub sig_suffix: String,
     pub violations: Vec<Violation>,
     pub notes: BTreeSet<String>,
     pub inconclusive: Vec<String>,
@@ -151,6 +153,7 @@ impl Report {
             violations: vec![],
             notes: BTreeSet::new(),
             inconclusive: vec![],
+            sig_suffix: String::new(),
         }
     }
 
@@ -200,6 +203,9 @@ impl Report {
     }
 
     pub fn violation(&mut self, signature: &str, detail: Value) {
+        // a driver may qualify every signature raised while a special circumstance (an injected fault) holds
+        let qualified = format!("{}{}", signature, self.sig_suffix);
+        let signature = qualified.as_str();
         // keep at most a handful per signature
         let same = self.violations.iter().filter(|v| v.signature == signature).count();
         self.count(&format!("violation:{}", signature));
@@ -331,6 +337,9 @@ pub fn finish_noexit(mut report: Report, spec: FinishSpec) -> i32 {
             "tier": cli.tier.name(),
             "seed": cli.seed,
             "profile": cli.profile,
+            "scale": cli.scale,
+            "extra": cli.extra,
+            "replay_cmd": format!("./check {} --replay {}", prop, path.display()),
             "detail": v.detail,
         });
         let _ = std::fs::write(&path, serde_json::to_string_pretty(&body).unwrap_or_default());
@@ -381,8 +390,10 @@ pub fn finish_noexit(mut report: Report, spec: FinishSpec) -> i32 {
     }
 
     let wall = spec.start.elapsed().as_secs_f64();
-    let ev_path = root.join("evidence").join(format!("{}.json", prop));
-    let _ = std::fs::create_dir_all(root.join("evidence"));
+    // a replay (./check --replay) writes its evidence elsewhere, so that the evidence of the last full run stays
+    let ev_dir = std::env::var("VERIF_EVIDENCE_DIR").map(PathBuf::from).unwrap_or_else(|_| root.join("evidence"));
+    let ev_path = ev_dir.join(format!("{}.json", prop));
+    let _ = std::fs::create_dir_all(&ev_dir);
 
     let mut evidence = json!({
         "property_id": prop,
